@@ -77,12 +77,53 @@ func firstTok(s string, n int) string {
 	return strings.Join(f, " ")
 }
 
+// OpTimeout: an operation that has not answered by then is a hang.
+var OpTimeout = 15 * time.Second
+
+// BreadcrumbPath, when set, receives the program about to be executed (config + ops), so that a
+// fatal runtime error of the implementation — which kills this process — leaves its input behind.
+var BreadcrumbPath string
+
+func breadcrumb(c Config, prog []Op) {
+	if BreadcrumbPath == "" {
+		return
+	}
+	var lines []string
+	for _, op := range prog {
+		lines = append(lines, op.Line())
+	}
+	j, _ := json.Marshal(prog)
+	b, _ := json.Marshal(map[string]any{"config": c.Name, "ops": lines, "ops_json": json.RawMessage(j)})
+	os.WriteFile(BreadcrumbPath, b, 0644)
+}
+
 func runImpl(c Config, prog []Op) []string {
+	breadcrumb(c, prog)
 	impl := c.New()
-	defer impl.Close()
 	out := make([]string, len(prog))
+	wedged := false
 	for i, op := range prog {
-		out[i] = impl.Exec(op)
+		if wedged {
+			out[i] = "HANG (the service stopped answering earlier in this program)"
+			continue
+		}
+		done := make(chan string, 1)
+		go func() { done <- impl.Exec(op) }()
+		select {
+		case r := <-done:
+			out[i] = r
+		case <-time.After(OpTimeout):
+			out[i] = fmt.Sprintf("HANG (no answer within %s)", OpTimeout)
+			wedged = true
+		}
+	}
+	if !wedged {
+		closed := make(chan struct{})
+		go func() { impl.Close(); close(closed) }()
+		select {
+		case <-closed:
+		case <-time.After(OpTimeout):
+		}
 	}
 	return out
 }
@@ -219,10 +260,22 @@ func RunPrograms(scenario string, seed uint64, progs [][]Op, configs []Config, a
 	if v := os.Getenv("VERIF_MAXREPORT"); v != "" {
 		fmt.Sscan(v, &maxReported)
 	}
+	hangs := 0
+run:
 	for _, c := range configs {
 		for i, p := range progs {
+			if hangs >= 3 {
+				// every further hang costs OpTimeout: three are enough to report
+				rep.Extra["stopped_early_after_hangs"] = 1
+				break run
+			}
 			impl := runImpl(c, p)
 			rep.Evaluations += len(p)
+			for _, r := range impl {
+				if strings.HasPrefix(r, "HANG (no answer") {
+					hangs++
+				}
+			}
 			idx := firstDiff(p, impl, models[i], acc)
 			if idx < 0 {
 				continue
@@ -231,8 +284,20 @@ func RunPrograms(scenario string, seed uint64, progs [][]Op, configs []Config, a
 			if len(rep.Mismatches) >= maxReported {
 				continue
 			}
-			small := Shrink(c, p[:idx+1], acc, 400)
-			sidx, simpl, smodel := fails(c, small, acc)
+			small := p[:idx+1]
+			hung := false
+			for _, r := range impl[:idx+1] {
+				hung = hung || strings.HasPrefix(r, "HANG")
+			}
+			if hung {
+				rep.Extra["hangs"]++
+			} else {
+				small = Shrink(c, p[:idx+1], acc, 400)
+			}
+			sidx, simpl, smodel := idx, impl[:idx+1], models[i][:idx+1]
+			if !hung {
+				sidx, simpl, smodel = fails(c, small, acc)
+			}
 			if sidx < 0 { // flaky under re-execution: report unshrunk
 				small, sidx, simpl, smodel = p[:idx+1], idx, impl[:idx+1], models[i][:idx+1]
 			}
